@@ -5,6 +5,7 @@ go 1.21
 require github.com/bartossh/Computantis/src v0.0.0
 
 require (
+	github.com/allegro/bigcache v1.2.1 // indirect
 	github.com/cespare/xxhash/v2 v2.2.0 // indirect
 	github.com/dgraph-io/badger/v4 v4.2.0 // indirect
 	github.com/dgraph-io/ristretto v0.1.1 // indirect
